@@ -40,6 +40,7 @@ func (n *fnode) diskName() string {
 }
 
 type c11state struct {
+	froot   string // the requester's file root on disk
 	rt      *rapid.T
 	w       *hlsim.World
 	c       *hlsim.Conn
@@ -241,7 +242,7 @@ func (s *c11state) expectedDisk() map[string]string {
 
 func (s *c11state) actualDisk() map[string]string {
 	out := map[string]string{}
-	root := s.w.FileRoot
+	root := s.froot
 	_ = filepath.Walk(root, func(p string, info os.FileInfo, err error) error {
 		if err != nil || p == root {
 			return nil
@@ -402,8 +403,13 @@ func hasSideFiles(n *fnode) bool {
 func c11prop(ev *evid.Rec) func(rt *rapid.T) {
 	return func(rt *rapid.T) {
 		ignoreSet := rapid.SampledFrom([][]string{{`^\.`, `^@`}, {`^\.`, `^@`}, {`^\.`}, {`^\.`, `^@`, `\.bak$`}, {`^\.`, `secret`}, {`^\.`, `^@`, `^L+$`}}).Draw(rt, "ignore")
+		own := rapid.IntRange(0, 3).Draw(rt, "ownroot") == 0
 		inWorld(rt, hlsim.Options{Agreement: "a", IgnoreFiles: ignoreSet, Accounts: []hlsim.AccountSpec{acct("admin", "Admin", "adminpw", allAccess)}}, func(rt *rapid.T, w *hlsim.World) {
-			s := &c11state{rt: rt, w: w, ev: ev, root: &fnode{kind: "dir", kids: map[string]*fnode{}}}
+			s := &c11state{rt: rt, w: w, ev: ev, root: &fnode{kind: "dir", kids: map[string]*fnode{}}, froot: w.FileRoot}
+			if own {
+				// the account has a file root of its own; the server-wide root mirrors its top-level folder names (empty)
+				s.froot = ownRoot(rt, w, acct("admin", "Admin", "adminpw", allAccess))
+			}
 			for _, p := range ignoreSet {
 				s.ignore = append(s.ignore, regexp.MustCompile(p))
 			}
@@ -415,7 +421,7 @@ func c11prop(ev *evid.Rec) func(rt *rapid.T) {
 				for i := 0; i < n; i++ {
 					lab := fmt.Sprintf("seed_%s_%d", strings.Join(p, "/"), i)
 					name := s.genName(lab, d, 244)
-					full := filepath.Join(append([]string{w.FileRoot}, append(p, name)...)...)
+					full := filepath.Join(append([]string{s.froot}, append(p, name)...)...)
 					if depth < 2 && rapid.IntRange(0, 2).Draw(rt, lab+"_dir") == 0 {
 						nd := &fnode{name: name, kind: "dir", kids: map[string]*fnode{}}
 						d.kids[name] = nd
@@ -440,6 +446,13 @@ func c11prop(ev *evid.Rec) func(rt *rapid.T) {
 				}
 			}
 			seed(nil, s.root, 0)
+			if own {
+				for name, k := range s.root.kids {
+					if k.kind == "dir" {
+						must(os.MkdirAll(filepath.Join(w.FileRoot, name), 0o755))
+					}
+				}
+			}
 			s.c = loginAs(rt, w, "10.0.0.1:1", "admin", "adminpw", "admin")
 			s.checkDisk("initial")
 			s.checkViews("initial")
@@ -630,7 +643,7 @@ func c11prop(ev *evid.Rec) func(rt *rapid.T) {
 					s.checkViews("invariant")
 				},
 			})
-			ev.Case(evid.Hash(strings.Join(s.history, "|"), fmt.Sprint(ignoreSet)), s.nt, fmt.Sprintf("steps:%d", min(len(s.history)/5*5, 40)), "ignore:"+strings.Join(ignoreSet, ","))
+			ev.Case(evid.Hash(strings.Join(s.history, "|"), fmt.Sprint(ignoreSet), own), s.nt, fmt.Sprintf("own-root:%v", own), fmt.Sprintf("steps:%d", min(len(s.history)/5*5, 40)), "ignore:"+strings.Join(ignoreSet, ","))
 			if s.nt && ev.WantSample() {
 				ev.Sample(map[string]any{"ignore_patterns": ignoreSet, "history": s.history})
 			}
